@@ -372,6 +372,14 @@ class FunctionVerifier:
                 self.oblige("key-present", self.stmt_anchor(node) if node is not None else "load", nested_select(o.comps["has"], idxs), st, node)
             terms = {c: z3.simplify(nested_select(t, idxs)) for c, t in o.comps.items()}
             return SFloat(terms["v"], terms["ninf"], terms["nan"])
+        if prog and self.cd.options.get("neg_index"):
+            # Python / numba wrap-around of negative indices (opt-in per contract: the obligation then only
+            # excludes indices outside [-dim, dim))
+            idxs = list(idxs)
+            for k, ix in enumerate(idxs):
+                dim = o.shape[len(a.prefix) + k]
+                idxs[k] = z3.simplify(z3.If(ix < 0, ix + dim, ix))
+            full = a.prefix + tuple(idxs)
         if prog:
             for k, ix in enumerate(idxs):
                 dim = o.shape[len(a.prefix) + k]
